@@ -23,7 +23,10 @@ RULE = ("cases: create_from_fixed_nb_of_points (dyadic h, nb 0..60, dim 1..3), C
         "(CGMY/HEM/Merton/VG with slow tails, p up to 0.999999): refusal or promised tail by closed-form mpmath tails; "
         "LevyDrivenSDEModel branch of compute_truncation (dim 1..3) against its driver; wave 6: compute_right_axis / compute_left_axis "
         "(+ CTMCGridProbabilityStep on top) on constant-density measures on [-A, A] (exhaustion + except branches), random dyadic step "
-        "measures and HEM / Merton models, against the loop model with recorded (table) or Coq-defined (linear) oracles.  "
+        "measures and HEM / Merton models, against the loop model with recorded (table) or Coq-defined (linear) oracles; wave 7: both "
+        "geometric constructors with h <= 0 / nan (audit witness h=-1, (-5,3), nb=3; random bounds dim 1..3; real HEM model and its SDE "
+        "wrapper through the real root search; rational-ratio bounds incl. ratios < 1) must refuse with the guard ValueError; regular "
+        "states of compute_right_axis (constant density, HEM) against ps_axis with the closed-form root (interval lemmas).  "
         "non-trivial = distinct case with >= 2 states on a side or >= 1 refinement")
 MODELLED = ["numpy arrays as lists of Q (lists of R for np.geomspace axes with arbitrary real bounds); np.insert/np.concatenate/list "
             "comprehension semantics (tied by exact correspondence)",
@@ -33,9 +36,14 @@ MODELLED = ["numpy arrays as lists of Q (lists of R for np.geomspace axes with a
             "np.geomspace as start*(stop/start)^(i/(num-1)): over R for every real bound (gs_point = a*exp(i/m*ln(b/a)); tied by "
             "interval-arithmetic lemmas, 1e-12, on real-model and random bounds) and over Q for bounds with a rational common ratio "
             "(tied by vm_compute, 1e-12; end points, -h, 0, h, origin index, truncations exactly); C13_geometric_axis_Q2R links the two",
-            "root finders (brentq) and quadrature are NOT modelled: truncation bounds are inputs of the model; probability-step axes "
-            "are modelled under the root finder's specification (F strictly increasing, F(root x p) - F x = p while F x + p <= M) while the tail is "
-            "not exhausted; the origin-adjacent gaps and the extrapolated end gaps of CTMCGridProbabilityStep are oracle-only",
+            "root finders (brentq, xtol 1e-10) and quadrature are NOT modelled: truncation bounds are inputs of the model; ps_axis is the "
+            "probability-step right half axis that the root finder's SPECIFICATION would give (F strictly increasing, F(root x p) - F x = p "
+            "while F x + p <= M): wave 7: tied to the loop model by a theorem (C13_probstep_loop_regular_is_ps_axis) and to the code by "
+            "interval lemmas with closed-form roots (constant density 1e-9 on every regular state, HEM 1e-7 on the first two); CTMCGridProbabilityStep.middle (xi == 0 / xip == 0 "
+            "shortcuts, p == 0 and out-of-bracket fall-backs to the arithmetic mean, brentq inside the gap) is NOT modelled: ps_middle is its "
+            "specification away from the origin, the implementation's middle is oracle-checked on every refined grid",
+            "wave 7: CTMCGridGeometric's guard `h > 0` (F-C13-7 repaired, /repo b517e80) is inside both geometric models (Q and R), checked "
+            "in the code's order (nb, h, bounds); compared on rejected arguments by vm_compute (geomq group, h in {-1, -1/4, 0})",
             "Coordinates.__imul__ (in-place doubling): one mutable cell g_o; aliases checked by the correspondence",
             "wave 6: CTMCGrid.left_point / right_point (int variant) and CTMCGrid.middle(float, float) are REGENERATED from "
             "rpylib/grid/spatial.py on every run (py2coq loop plug-in, Gen/GenTieChain.v) and linked to the hand models Model/Grid.v "
@@ -52,9 +60,12 @@ ASSUMPTIONS = ["grid.middle returns a point strictly inside a gap, and x/2 next 
                "truncation bounds are inputs of the model (root finders are not modelled); their promised tail probability is "
                "monitored on the implementation twice: with the model's own integrate and with closed-form tails (mpmath) that do "
                "not use /repo, incl. heavy-tailed regimes where the constructor must refuse or deliver",
-               "C13_probstep_gaps / C13_probstep_refine assume the root finder's specification (exact root, strictly increasing "
-               "cumulative jump probability); on the implementation the per-gap probability p (and p/2 after one refine) is monitored "
-               "within 1e-6",
+               "C13_probstep_gaps_spec / C13_probstep_refine_spec ASSUME the root finder's specification (exact root, strictly increasing "
+               "cumulative jump probability) -- they are corollaries of that specification, not statements about brentq; on the "
+               "implementation the per-gap probability p (and p/2 after one refine) is monitored within 1e-6 and the regular states are "
+               "compared with ps_axis under closed-form roots (constant density, HEM)",
+               "C13_probstep_loop_regular_is_ps_axis assumes that a returned root lies beyond the bracket end, that a refusal is monotone "
+               "along the axis, and that the real root function agrees with the loop's oracle on the searches performed",
                "C13_probstep_right_loop / _left_loop / _ctor_admissible assume of the root finder only that a returned root lies strictly "
                "beyond the bracket end it started from (monitored on every recorded root search: histogram probloop_root_beyond_bracket_end), "
                "and that the loop terminates (fuel); C13_probstep_right_shape / _left_shape additionally assume F(root x) - F x == q and "
@@ -68,13 +79,31 @@ THEOREM_NOTES = {
                               "tolerance 1e-12 otherwise; int() as floor",
     "C13_uniform_grid_wf / C13_uniform_refine_n": "the grid object of CTMCUniformGrid (any dimension: one shared axis) and any number of refinements of it",
     "C13_geometric_admissible / _guards_suffice / _grid_wf / _refine_n": "Q model: truncation bounds with rational common ratios l = -h*ql^(nb-1), r = h*qr^(nb-1) "
-                              "(ql, qr are witnesses, not computed by the code); guards nb >= 2, l < -h, h < r as in the code",
-    "C13_geometric_admissible_R / _guards_suffice_R / C13_geomspace_R_axis / C13_geometric_refine_n_R": "R model: EVERY real l, h, r, nb; np.geomspace as "
-                              "a*exp(i/(n-1)*ln(b/a)) (numpy: sign*10^(log10|a| + i*step), end points overwritten: mathematically equal, tied to 1e-12)",
+                              "(ql, qr are witnesses, not computed by the code); guards nb >= 2, h > 0, l < -h, h < r as in the REPAIRED code (wave 7: "
+                              "F-C13-7, /repo b517e80 = fix-w7-c13 6054689); no hypothesis on the argument h is left, 0 < h is a conclusion",
+    "C13_geometric_admissible_R / _guards_suffice_R / _rejects_R / C13_geomspace_R_axis / C13_geometric_refine_n_R": "R model: EVERY real l, h, r, nb; np.geomspace as "
+                              "a*exp(i/(n-1)*ln(b/a)) (numpy: sign*10^(log10|a| + i*step), end points overwritten: mathematically equal, tied to 1e-12); "
+                              "wave 7 (audit 4 D4): _guards_suffice_R lacked 0 < h and was true of the model only (the unrepaired code returned "
+                              "[-5, nan, 1, 0, -1, nan, 3] for h = -1, bounds (-5, 3), nb = 3; h = 0 escaped with numpy's ValueError): the constructors "
+                              "now refuse h <= 0, the model has the guard, _guards_suffice_R has 0 < h, _admissible_R has no hypothesis at all and "
+                              "_rejects_R states that each violated guard makes the constructor refuse (driven on the implementation: histogram "
+                              "geometric_h_nonpositive, incl. nan)",
     "C13_refine_n_R / C13_refine_step_R": "CTMCGrid.refine with the arithmetic-mean middle on real axes (R twins of C13_refine_n_axis_admissible / C13_refine_nests)",
-    "C13_probstep_gaps / C13_probstep_refine": "under the root finder's specification only (F strictly increasing; F(root x p) - F x = p required only while F x + p <= M, the mass available; n steps with F x + n*p <= M; satisfiable: C13_probstep_nonvacuous); right "
-                              "half axis beyond h while the tail is not exhausted (the `p_left < p/2` exit with its extrapolated last point and the `except` "
-                              "branch are outside THESE two R theorems; they are inside the wave-6 loop model: C13_probstep_right_shape / _left_shape)",
+    "C13_probstep_gaps_spec / C13_probstep_refine_spec": "SPECIFICATION COROLLARIES (renamed in wave 7, audit 4 B6).  _gaps_spec is the root finder's "
+                              "specification applied twice per step (F(root(root x (p/2)) (p/2)) - F x = p follows from root_spec alone) plus an induction "
+                              "over n and strict increase; _refine_spec has a little more content (the grid's middle of a gap = the loop's intermediate "
+                              "middle_point, so refining gives the axis of step p/2).  Both say what brentq + quadrature WOULD give if exact "
+                              "(F strictly increasing; F(root x p) - F x = p required only while F x + p <= M; satisfiable: C13_probstep_nonvacuous); "
+                              "neither says the code meets that specification.  Audit's list of what they leave out, against the CURRENT model: the exit "
+                              "test `p_left < p/2` computed from the PREVIOUS middle_point, the bare `except` (incl. first root found / second raised), "
+                              "its arithmetic extrapolation and last_point ARE modelled since wave 6 (Model/ProbStepLoop.v; C13_probstep_right_shape / "
+                              "_left_shape, compared state by state); still NOT modelled: CTMCGridProbabilityStep.middle's xi == 0 / xip == 0 shortcuts, "
+                              "its p == 0 and out-of-bracket fall-backs (oracle-checked only), brentq's xtol 1e-10 (tolerance of the ties), termination",
+    "C13_probstep_loop_regular_is_ps_axis": "wave 7 (audit 4 A7: ps_axis was compared with nothing): the regular part h :: reg of the loop model's right half "
+                              "axis IS ps_axis rootR h p (length reg) for any real root function agreeing with the loop's oracle; ps_axis is additionally "
+                              "compared with the implementation directly (case file ps_axis: closed-form roots; constant density: every regular state, n up to 7; HEM: "
+                              "the first two regular states of 2 axes -- interval arithmetic on the nested closed form is too slow beyond).  Right side "
+                              "only (ps_axis has no left twin); the decomposition reg/ext is the one the loop produces (existential)",
     "C13_probstep_right_loop / C13_probstep_left_loop / C13_probstep_ctor_admissible": "every branch of the two loops, for ARBITRARY oracles "
                               "(quadrature test, root finder with None = raised); only hypothesis: a returned root lies strictly beyond the bracket end; "
                               "conditional on termination (the model's fuel; `while True` in the code: termination is not proved -- a root finder "
@@ -90,32 +119,39 @@ THEOREM_NOTES = {
     "middle": "the n-level theorems need one STATELESS middle (proved instance: the arithmetic mean); CTMCGridProbabilityStep.middle reads grid.h: "
               "only the one-step theorems C13_refine_nests_axis / C13_refine_admissible_axis apply to it (oracle-checked premises), plus C13_probstep_refine "
               "away from the origin",
-    "0 < h": "assumed by every theorem; create_from_fixed_nb_of_points does not reject h <= 0 (h = -0.5 returns a decreasing axis): observation, not repaired",
+    "0 < h": "a guard of the geometric constructors since wave 7 (conclusion of their theorems); still a HYPOTHESIS of C13_fixed_admissible / C13_fixed_axis: "
+             "create_from_fixed_nb_of_points does not reject h <= 0 (h = -0.5, nb = 4 returns the decreasing axis [1, 0.5, 0, -0.5, -1]) -- same class of defect "
+             "as F-C13-7, observed, not repaired and not driven by the oracle (Model/Grid.v is shared with C01/C03/C04/C19); CTMCUniformGrid refuses h < 0 "
+             "(int(|l|/h) < 2) and raises ZeroDivisionError for h = 0",
     "tail probability": "not proved (numerical root search); monitored: mass(h/2, r)/mass(h/2, inf) within 2% of the cut tail of the target, with the model's own "
                         "integrate and with independent closed-form tails; in heavy-tailed regimes the constructor must refuse (ValueError) or deliver",
     "constructor exceptions": "an exception that is neither an argument guard nor the root search's refusal (no sign change on [-100, 100]) is reported as a violation",
 }
-LEVEL_TEXT = ("Proof: 40 Coq theorems + 6 examples (Q theorems closed under the global context; R theorems under the standard real-number axioms) "
+LEVEL_TEXT = ("Proof: 42 Coq theorems + 8 examples (Q theorems closed under the global context; R theorems under the standard real-number axioms) "
               "state that create_from_fixed_nb_of_points, CTMCUniformGrid (np.linspace as its mathematical sequence), CTMCGridGeometric (both "
               "constructors; np.geomspace as start*(stop/start)^(i/(n-1)) over R for every real bound, and over Q for rational common ratios, the "
-              "two linked by a theorem) and CTMCCredit return, for every argument they accept, strictly increasing axes with 0 at the origin "
+              "two linked by a theorem; guards nb >= 2, h > 0, l < -h < h < r inside the model, each necessary and together sufficient over R) and CTMCCredit "
+              "return, for every argument they accept (0 < h is a hypothesis for the fixed-number-of-points and uniform constructors only), strictly increasing axes with 0 at the origin "
               "index and -h/+h as neighbours and end points at the reported truncations; that any assembly left++[0]++right with pivot len(left) "
               "does (over Q and over R); and that refine - modelled as the np.insert loop, proved equal to the interleaving - keeps every old "
               "state at 2^n times its index, inserts exactly one state strictly inside each gap at grid.middle, halves h, doubles the (shared) "
               "origin index and leaves the truncations unchanged, for every n, every admissible grid (in particular every uniform and geometric "
-              "grid, composed theorems) and every middle function with the stated three properties.  Probability-step axes: under the root "
-              "finder's specification every gap carries the requested probability p and refining yields the axis of step p/2; wave 6: the two "
+              "grid, composed theorems) and every middle function with the stated three properties.  Probability-step axes: two SPECIFICATION "
+              "corollaries (`_spec`: IF the root finder is exact, every gap carries the requested probability p and refining yields the axis of "
+              "step p/2 -- the first is the specification applied twice per step plus an induction); wave 6: the two "
               "construction loops compute_right_axis / compute_left_axis with their exhaustion and except branches are inside the model "
               "(arbitrary quadrature / root-finder oracles): whenever they terminate the half axes are strictly increasing from +-h, the "
               "assembled axis of CTMCGridProbabilityStep is admissible, and under the root specification the axis is `regular gaps of "
               "probability exactly p, then >= 1 equally spaced extrapolated states` on both sides (left twin stated separately: the left "
-              "loop is not the mirror image of the right one).  left_point / right_point / middle are regenerated from the source by "
+              "loop is not the mirror image of the right one); wave 7: the regular part of the loop model's right half axis is proved to be the "
+              "specification axis ps_axis, which is also compared with the implementation directly (closed-form roots).  left_point / right_point / middle are regenerated from the source by "
               "py2coq on every run and proved equal to the hand models.  The model is "
               "tied to /repo by exact vm_compute correspondence on dyadic inputs (fixed, credit, uniform with dyadic linspace step, refine^n, "
               "aliasing, probability-step loops on recorded oracle answers), by 1e-12 correspondence for np.geomspace (vm_compute for rational ratios, interval-arithmetic lemmas for real-model "
               "and random bounds) and by an oracle on every constructor of the implementation (dim 1-3, LevyModel / copula / SDE-model "
               "arguments).  Partial: promised tail / per-step probabilities are monitored (own integrate + independent closed-form tails, heavy "
-              "tails included), not proved; brentq and the quadrature are specified, never verified; termination of the two `while True` loops is not proved.")
+              "tails included), not proved; brentq and the quadrature are specified, never verified; CTMCGridProbabilityStep.middle's fall-backs are "
+              "oracle-checked, not modelled; termination of the two `while True` loops is not proved.")
 LEVEL_NOTE = ("Trusted: Coq kernel + vm_compute + coq-interval; floats modelled as Q / R (exact on the dyadic inputs of the correspondence, 1e-12 "
               "elsewhere); numpy array semantics; root finders (brentq) not modelled; mpmath for the independent tails.")
 TECHNIQUE = ("Coq proof over Q/list and R/list (induction on axes, lra/lia/nra, exp/ln monotonicity) + exact vm_compute correspondence on dyadic grids "
@@ -245,7 +281,7 @@ def build_credit(l, r, h, levels, sym):
         return CTMCCredit(h=h, level_a=(levels[0] if dim == 1 else list(levels)), model=dummy_model(dim), symmetric_grid=sym)
 
 
-GUARD_MESSAGES = ("h is too large for the truncation bounds", "expected nb_of_points", "CTMCCredit grid error",
+GUARD_MESSAGES = ("h is too large for the truncation bounds", "expected nb_of_points", "expected h > 0", "CTMCCredit grid error",
                   "level a smaller than the last left point", "the number of points is greater than")
 # the truncation root search refuses a model whose requested quantile lies outside its search interval [-100, 100]
 # (scipy brentq: no sign change on the bracket): a refusal, not a grid -- allowed by the property ("returns ...")
@@ -423,8 +459,11 @@ def correspond(res):
     _heavy_tail_monitor(res, rng5, viol, thorough)
     _probstep_nd_and_sde(res, rng5, viol, thorough)
     _geomspace_R_tie(res, rng5, thorough)
+    _geometric_nonpositive_h(res, random.Random(res.seed + 7), viol)
     # ---- 6. wave 6: the loops of compute_right_axis / compute_left_axis, every branch (Model/ProbStepLoop.v)
+    del PS_AXIS_CASES[:]
     groups.extend(_probstep_loop_cases(res, random.Random(res.seed + 6), viol, thorough))
+    _ps_axis_tie(res, thorough)
 
     groups.append(("uniform", "Q * Q * Q * option (list Q * nat)",
                    "fun c => match c with (l, h, r, e) => match uniform_axis l h r, e with "
@@ -467,10 +506,14 @@ def _geometric_cases(res, rng, viol, thorough):
     ratios = [Fr(2), Fr(3, 2), Fr(5, 4), Fr(3), Fr(9, 8), Fr(2), Fr(3, 2), Fr(1), Fr(1, 2)]
     cases = []
     reps = 3 if not thorough else 12
-    for h in (0.25, 0.125, 0.5, 1.0):
+    # wave 7 (F-C13-7): h <= 0 must be refused by both constructors (guard `expected h > 0`), whatever the bounds -- ratios < 1 make
+    # l < -h and h < r hold for a negative h, so only the new guard can refuse those
+    for h in (0.25, 0.125, 0.5, 1.0, -0.25, -1.0, 0.0):
         for nb in (0, 1, 2, 3, 4, 5, 7, 10):
             for _ in range(reps):
                 ql, qr = rng.choice(ratios), rng.choice(ratios)
+                if h < 0 and rng.random() < 0.5:
+                    ql, qr = Fr(1, 2), rng.choice([Fr(1, 2), Fr(1, 4)])
                 dim = rng.choice([1, 1, 2, 3])
                 e = max(nb - 1, 0)
                 lq, rq = -(Fr(h) * ql ** e), Fr(h) * qr ** e
@@ -492,12 +535,13 @@ def _geometric_cases(res, rng, viol, thorough):
                         continue
                 res.count(("geomq", h, str(ql), str(qr), nb, dim, how), nontrivial=nb >= 2, kind=f"CTMCGridGeometric {how} (rational ratio)")
                 res.bump("geomq_ratio", f"ql={ql} qr={qr}")
+                res.bump("geomq_h_sign", "h > 0" if h > 0 else ("h <= 0: " + ("grid RETURNED" if g is not None else "refused")))
                 if g is not None:
                     res.bump("geomq_outcome", "grid")
                     why = grid_reason(g)
                     if why:
                         viol("CTMCGridGeometric returns a malformed grid: " + why.split(":")[-1].strip()[:60], kind="ctor",
-                             ctor="CTMCGridGeometric.create_with_bounds", args=args, reason=why, finding="F-C13-4")
+                             ctor="CTMCGridGeometric.create_with_bounds", args=args, reason=why, finding=("F-C13-4" if h > 0 else "F-C13-7"))
                     elif len(g.axes) != dim or origin_indices(g) != [nb] * dim or any(len(a) != 2 * nb + 1 for a in g.axes) \
                             or any(tuple(map(float, t)) != (l, r) for t in g.truncations):
                         viol("CTMCGridGeometric: dimension / origin index / number of states / truncations not as promised", kind="ctor",
@@ -660,6 +704,7 @@ def _probstep_loop_cases(res, rng, viol, thorough):
             bad = "CTMCGridProbabilityStep: " + grid_reason(g)
         if bad:
             viol(bad, ctor="CTMCGridProbabilityStep", args=args, left=L, right=R)
+        _collect_ps_axis_case(res, kind, A, h, p, runs["right"])
         for side in ("right", "left"):
             run = runs[side]
             res.bump("probloop_branches", f"{side}: " + run["branches"])
@@ -681,6 +726,116 @@ def _probstep_loop_cases(res, rng, viol, thorough):
                 lin_cases.append(tup([blit(right), qlit(A), qlit(h), qlit(p / 2), qlit(p * (A - h / 2)), lst([qlit(x) for x in run["axis"]])]))
     return [("probloop_tab", "bool * Q * list (Q * option Q) * list (Q * bool) * list Q", LOOP_TAB_CHECK, tab_cases),
             ("probloop_lin", "bool * Q * Q * Q * Q * list Q", LOOP_LIN_CHECK, lin_cases)]
+
+
+# ------------------------------------------------------------------------------------------ wave 7: ps_axis against the code
+PS_AXIS_CASES = []     # (kind, params, h, p, n_regular, [h, reg_1, ..., reg_n]) of right half axes built by the implementation
+
+
+def _collect_ps_axis_case(res, kind, A, h, p, run):
+    """the REGULAR part of a right half axis built by compute_right_axis (states found by two successful root searches each):
+    n = (number of successful root searches before the first refusal) // 2; state i must be the 2i-th recorded root"""
+    if kind == "lin":
+        params = {"W": 2 * (Fr(A) - Fr(h) / 2)}
+    elif kind == "real" and A["family"] == "HEM":
+        params = dict(A["kwargs"])
+    else:
+        return
+    ok = 0
+    for _, r in run["roots"]:
+        if r is None:
+            break
+        ok += 1
+    n = ok // 2
+    states = run["axis"][: n + 1]
+    if len(states) != n + 1 or any(states[i] != run["roots"][2 * i - 1][1] for i in range(1, n + 1)) or states[0] != float(h):
+        res.broke("correspondence ps_axis", f"the regular states of compute_right_axis are not the recorded second roots: {states} / {run['roots'][:6]}")
+        return
+    PS_AXIS_CASES.append((kind, params, float(h), float(p), n, states))
+
+
+def _ps_axis_tie(res, thorough):
+    """audit 4, A7: `ps_axis` (the axis of the specification corollaries C13_probstep_gaps_spec / _refine_spec) against the right half
+    axes the implementation builds with brentq + its own integrate.  The root function given to ps_axis is the CLOSED-FORM solution of
+    F(root x q) - F x = q for the measure at hand (nothing recorded from the run goes into the model side):
+      constant density on [-A, A]:  root x q = x + q * 2(A - h/2)
+      HEM (Kou) right tail:         root x q = -ln(exp(-eta1 x) - q * I / (lam p)) / eta1,   I = lam p e^(-eta1 h/2) + lam (1-p) e^(-eta2 h/2)
+    One Coq lemma per regular state (HEM: the first two regular states of each axis only, see below), by `interval`:  |nthr (ps_axis root h p n) i - state_i| <= tol*(1+|state_i|), tol = 1e-9 (constant
+    density) / 1e-7 (HEM: 2n root searches of xtol 1e-10 whose errors are amplified by the density ratio along the tail)."""
+    cases = [c for c in PS_AXIS_CASES if c[4] >= 1]
+    lin = [c for c in cases if c[0] == "lin"][: (14 if not thorough else 60)]
+    hem = [c for c in cases if c[0] == "real"][: (2 if not thorough else 6)]
+    defs, lemmas, k = [], [], 0
+    for kind, prm, h, p, n, states in lin + hem:
+        res.count(("ps_axis", kind, json.dumps({a: str(b) for a, b in prm.items()}, sort_keys=True), h, p), kind=f"ps_axis vs compute_right_axis ({kind})")
+        res.bump("ps_axis_regular_steps", f"{kind}: n={n}")
+        if kind == "lin":
+            defs.append(f"Definition rt{k} (x q : R) : R := x + q * {rlit(prm['W'])}.")
+            tolr, prec = Fr(1, 10 ** 9), 90
+        else:
+            lam, pp, e1, e2 = (rlit(prm[a]) for a in ("intensity", "p", "eta1", "eta2"))
+            inten = f"({lam} * {pp} * exp (- {e1} * ({rlit(h)} / 2)) + {lam} * (1 - {pp}) * exp (- {e2} * ({rlit(h)} / 2)))"
+            defs.append(f"Definition rt{k} (x q : R) : R := - ln (exp (- {e1} * x) - q * {inten} / ({lam} * {pp})) / {e1}.")
+            tolr, prec = Fr(1, 10 ** 7), 120
+        # HEM: only the first two regular states -- `interval` on the nested ln(exp(.) - c) costs ~6x more per further state (2 s, 13 s, > 300 s)
+        for i in range(1, (n if kind == "lin" else min(n, 2)) + 1):
+            v = states[i]
+            tol = tolr * (1 + abs(Fr(v)))
+            lemmas.append(f"Lemma c{k}_{i} : Rabs (nthr (ps_axis rt{k} {rlit(h)} {rlit(p)} {n}%nat) {i}%nat - {rlit(v)}) <= {rlit(tol)}.\n"
+                          f"Proof. unfold nthr; cbn [ps_axis nth]; unfold rt{k}; interval with (i_prec {prec}). Qed.")
+        k += 1
+    res.bump("ps_axis_states", len(lemmas))
+    if not lemmas or not hem or not lin:
+        res.broke("correspondence ps_axis", f"no case of one kind (constant density: {len(lin)}, HEM: {len(hem)}): nothing would be compared")
+        return
+    text = ("From Coq Require Import Reals List.\nFrom Interval Require Import Tactic.\nFrom RV Require Import Model.GridGeom.\n"
+            "Open Scope R_scope.\n" + "\n".join(defs) + "\n" + "\n".join(lemmas) + "\n")
+    res.case_lemmas += 1
+    rc, out = coq_eval_file(PROP, "ps_axis", text, timeout=600)
+    if rc != 0:
+        res.broke("correspondence ps_axis", f"a regular state of compute_right_axis is not the state of ps_axis with the closed-form root: {out[-700:]}")
+    else:
+        res.case_ok += 1
+
+
+# ------------------------------------------------------------------------------------------ wave 7: h <= 0 (F-C13-7)
+def _geometric_nonpositive_h(res, rng, viol):
+    """audit 4, D4: CTMCGridGeometric.__init__ / create_with_bounds with h <= 0 (and nan) on arbitrary bounds and on real models
+    (real root search for the truncation): the constructor must REFUSE with its own guard ValueError (C13_geometric_rejects_R);
+    a returned grid (the unrepaired code: nan / decreasing states) or an exception that is not an argument guard (numpy's
+    'Geometric sequence cannot include zero' for h = 0) is a violation of `every grid constructor returns ... strictly increasing
+    finite states`.  First case = the audit's witness."""
+    from rpylib.grid.spatial import CTMCGridGeometric
+    from stepmeasure import real_model_specs, build_model
+    from rpylib.model.levydrivensde.levydrivensde import LevyDrivenSDEModel
+    spec = real_model_specs(rng)[0]
+    plan = [("bounds", -1.0, (-5.0, 3.0), 3, 1)]
+    for h in (-1.0, -0.25, -1e-3, 0.0, -0.0, float("nan")):
+        for nb in (2, 3, 5):
+            plan.append(("bounds", h, (-rng.uniform(0.5, 5.0), rng.uniform(0.5, 5.0)), nb, rng.choice([1, 2, 3])))
+            plan.append((rng.choice(["init", "init-sde"]), h, None, nb, 1))
+    for how, h, lr, nb, dim in plan:
+        args = {"h": h, "truncations": (list(lr) if lr else None), "dim": dim, "nb": nb, "how": how, "model": (spec if lr is None else None)}
+        res.count(("geom-h<=0", how, repr(h), nb, dim, lr), kind=f"CTMCGridGeometric {how} with h <= 0 / nan")
+        try:
+            with warnings.catch_warnings():
+                warnings.simplefilter("ignore")
+                if how == "bounds":
+                    g = CTMCGridGeometric.create_with_bounds(h=h, truncations=lr, dimension=dim, nb_of_points_on_each_side=nb)
+                else:
+                    m = build_model(spec)
+                    g = CTMCGridGeometric(h=h, model=(m if how == "init" else LevyDrivenSDEModel(driver=m)), nb_of_points_on_each_side=nb)
+        except Exception as e:  # noqa
+            if is_guard(e):
+                res.bump("geometric_h_nonpositive", "refused (guard ValueError)")
+            else:
+                res.bump("geometric_h_nonpositive", f"UNEXPECTED {type(e).__name__}")
+                viol("CTMCGridGeometric with h <= 0 is not refused by an argument guard: " + f"{type(e).__name__}: {str(e)[:60]}",
+                     kind="geom-h", finding="F-C13-7", exception=f"{type(e).__name__}: {str(e)[:200]}", **args)
+            continue
+        res.bump("geometric_h_nonpositive", "grid RETURNED")
+        viol("CTMCGridGeometric accepts h <= 0 and returns a grid: " + (grid_reason(g) or "h is not positive").split(":")[-1].strip()[:60],
+             kind="geom-h", finding="F-C13-7", got_axis=[repr(float(x)) for x in g.axes[0]][:25], **args)
 
 
 # ------------------------------------------------------------------------------------------ wave 5: promised tail, heavy tails
@@ -1154,6 +1309,15 @@ def replay(path):
             bad = abs(cl - p) > max(1e-9, 0.02 * (1 - p)) or abs(cr - p) > max(1e-9, 0.02 * (1 - p))
             print("still fails" if bad else "no failure on replay")
             return 1 if bad else 0
+        elif k == "geom-h":
+            if data["how"] == "bounds":
+                g = CTMCGridGeometric.create_with_bounds(h=data["h"], truncations=tuple(data["truncations"]), dimension=data["dim"],
+                                                         nb_of_points_on_each_side=data["nb"])
+            else:
+                from rpylib.model.levydrivensde.levydrivensde import LevyDrivenSDEModel
+                m = build_model(data["model"])
+                g = CTMCGridGeometric(h=data["h"], model=(m if data["how"] == "init" else LevyDrivenSDEModel(driver=m)),
+                                      nb_of_points_on_each_side=data["nb"])
         elif k == "uniform-exact":
             with _patched_truncation(data["l"], data["r"]):
                 g = CTMCUniformGrid(h=data["h"], model=dummy_model(data["dim"]))
@@ -1176,6 +1340,9 @@ def replay(path):
             print("replay: unknown kind; re-run ./check C13")
             return 1
     except ValueError as e:
+        if k == "geom-h" and not is_guard(e):
+            print("still fails: h <= 0 is not refused by an argument guard:", e)
+            return 1
         print("constructor now raises ValueError:", e)
         return 0
     why = grid_reason(g)
